@@ -258,12 +258,14 @@ def run_scalar(case, ctx):
         nn = p + 1 + case["extra"]
         if fam == "closed":
             nn = max(2, nn)
-        kwargs["nnodes"] = nn
+        # nnodes is left to its default (degree + 1) unless the case asks for more, or a closed rule would get 1 node
+        if case["extra"] or nn != p + 1:
+            kwargs["nnodes"] = nn
     elif case["extra"]:
         kwargs["nnodes"] = p + 1 + case["extra"]
     o = call(Integrate.scalar, curve, **kwargs)
     cv.unchanged(ctx, curve, pre, "scalar:modified", "Integrate.scalar")
-    feat = f"{fam or 'default'}:{'vec' if vec else 'scal'}:{'disc' if disc else 'cont'}"
+    feat = f"{fam or 'default'}:{'vec' if vec else 'scal'}:{'disc' if disc else 'cont'}:{'nn-given' if 'nnodes' in kwargs else 'nn-default'}"
     if not ctx.check(o.ok, f"scalar:raises:{o.exc_name}:{feat}", f"Integrate.scalar raised {o.brief()}"):
         return
     want = closed_form(rc)
